@@ -163,10 +163,10 @@ def hist_all_ops(rng, cfg, g: G, meta, n_roots=2, n_dicts=4, ops=("validate", "k
 
 def c05_programs(rng, tier) -> List[Item]:
     items = corpus_items("C05")
-    cfg = Cfg(cached=False, raising=False)
+    cfg = Cfg(cached=False, raising=False, catch_unsafe=True)
     items += small_tree_enumeration(sizes(tier, 1, 2))
     items += gen_items(rng, cfg, sizes(tier, 250, 4000), hist_all_ops, ops=("evaluate",))
-    cfg2 = Cfg(raising=True)
+    cfg2 = Cfg(raising=True, catch_unsafe=True)
     items += gen_items(rng, cfg2, sizes(tier, 100, 1500), hist_all_ops, ops=("evaluate",))
     return items
 
@@ -723,8 +723,8 @@ def c04_programs(rng, tier) -> List[Item]:
             elif r < 0.25:
                 dom = P.fnvalue("truthy")
                 domspec = "truthy"
-            elif r < 0.32:
-                dom = P.option("ALLOWED")
+            elif r < 0.40:
+                dom = P.option("ALLOWED", dflt=P.value([None, False, 0, 1, "", "x", "a", "b", [], {}, [0], {"X": 0}]) if rng.random() < 0.6 else None)
                 domspec = "ALLOWED"
             opt = P.option(key, dflt=dflt, dom=dom)
             for present in (True, False):
@@ -832,7 +832,7 @@ def _dom_rejects(dom, v, o):
     if dom == "truthy":
         return not bool(v)
     if dom == "ALLOWED":
-        al = o.get("ALLOWED")
+        al = o.get("ALLOWED", [None, False, 0, 1, "", "x", "a", "b", [], {}, [0], {"X": 0}])
         return isinstance(al, list) and not any(_pyeq(v, x) for x in al)
     if isinstance(dom, list):
         return not any(_pyeq(v, x) for x in dom)
@@ -841,7 +841,7 @@ def _dom_rejects(dom, v, o):
 
 def _dom_may_reject(dom, v, o):
     if dom == "ALLOWED" and "ALLOWED" not in o:
-        return True
+        return True      # the domain option may have no default
     return _dom_rejects(dom, v, o)
 
 
@@ -853,30 +853,48 @@ def _pyeq(a, b):
 
 
 def namespace_items(rng, n) -> List[Item]:
-    """a namespace behaves like the equivalent fully-qualified Options"""
+    """a namespace (declared through Option.namespace: annotations, plain defaults, explicit Options,
+    implicit and explicitly named sub-namespaces, up to 3 levels) behaves like the fully-qualified Options"""
     items = []
     for _ in range(n):
         P = Prog()
-        names = rng.sample(["A", "B", "C", "D"], rng.randint(1, 3))
-        members = []
-        plain = []
-        for nm in names:
-            dflt_v = rng.choice([None, "none", 0, "t{X}", [1]])
-            mk = lambda: (None if dflt_v == "none" else (P.template(dflt_v) if isinstance(dflt_v, str) else P.value(dflt_v)))
-            dom = P.value([0, 1, None, "a", [1]]) if rng.random() < 0.3 else None
-            dom2 = P.value([0, 1, None, "a", [1]]) if dom is not None else None
-            members.append((nm, P.option(f"NS.{nm}", dflt=mk(), dom=dom)))
-            plain.append((nm, P.option(f"NS.{nm}", dflt=mk(), dom=dom2)))
-        ns = P.namespace("NS", members)
+        plain: List[Tuple[str, int]] = []      # (dotted key, fully-qualified twin option)
+
+        def build_ns(key, depth):
+            members = []
+            for nm in rng.sample(["A", "B", "C", "D"], rng.randint(1, 3)):
+                dflt_v = rng.choice([None, "none", "none", 0, "t{X}", [1], 5])
+                mk = lambda: (None if dflt_v == "none" else (P.template(dflt_v) if isinstance(dflt_v, str) else P.value(dflt_v)))
+                with_dom = rng.random() < 0.3
+                style = "annot" if dflt_v == "none" and not with_dom and rng.random() < 0.5 else \
+                    ("plain" if dflt_v != "none" and not with_dom and rng.random() < 0.5 else "option")
+                dom = P.value([0, 1, None, "a", [1], 5, "t1"]) if with_dom else None
+                dom2 = P.value([0, 1, None, "a", [1], 5, "t1"]) if with_dom else None
+                members.append((nm, P.option(f"{key}.{nm}", dflt=mk(), dom=dom, nsmember=1, style=style)))
+                plain.append((f"{key}.{nm}", P.option(f"{key}.{nm}", dflt=mk(), dom=dom2)))
+            # Option.namespace collects annotated members first, then the class attributes in order
+            members.sort(key=lambda m: 0 if P.node(m[1]).get("style") == "annot" else 1)
+            if depth < 3 and rng.random() < 0.6:
+                sub_name = rng.choice(["SUB", "DB", "X1"])
+                sub = build_ns(f"{key}.{sub_name}", depth + 1)
+                P.node(sub)["explicit"] = rng.random() < 0.5
+                P.node(sub)["nsmember"] = 1
+                members.append((sub_name, sub))
+            return P.namespace(key, members, via="decorator")
+
+        ns = build_ns("NS", 1)
         meta = {"ns": []}
         for _ in range(4):
-            sec = {nm: rng.choice([0, 1, None, "a", "", [1], "{X}", 5]) for nm in names if rng.random() < 0.7}
-            o = sort_json({"NS": sec, "X": rng.choice([1, "x"])} if (sec or rng.random() < 0.5) else {"X": 2})
+            o: Dict[str, Any] = {"X": rng.choice([1, "x"])}
+            for key, _n in plain:
+                if rng.random() < 0.65:
+                    _put(o, key, rng.choice([0, 1, None, "a", "", [1], "{X}", 5]))
+            o = sort_json(o)
             P.evaluate(ns, o)
             rec = {"ns": len(P.ops) - 1, "members": []}
-            for nm, pn in plain:
+            for key, pn in plain:
                 P.evaluate(pn, o)
-                rec["members"].append((nm, len(P.ops) - 1))
+                rec["members"].append((key, len(P.ops) - 1))
             meta["ns"].append(rec)
         items.append((P.to_json(), meta))
     return items
@@ -888,7 +906,13 @@ def c04_ns_oracle(prog, meta, impl, model):
         a = impl[rec["ns"]]
         mem = [(nm, impl[i]) for nm, i in rec["members"]]
         if all(is_ok(m) for _, m in mem):
-            exp = {nm: m["r"][1] for nm, m in mem}
+            exp: Dict[str, Any] = {}
+            for key, m in mem:
+                cur = exp
+                segs = key.split(".")[1:]
+                for sgm in segs[:-1]:
+                    cur = cur.setdefault(sgm, {})
+                cur[segs[-1]] = m["r"][1]
             if not is_ok(a) or dumps(a["r"][1]) != dumps(exp):
                 out.append(("a namespace does not evaluate like its fully-qualified Options", rec["ns"],
                             {"namespace": a.get("r"), "members": exp}))
@@ -912,7 +936,7 @@ C04 = CoreProp("C04", ("eval", "mut"), c04_programs, c04_full_oracle, nontrivial
 
 def c06_programs(rng, tier) -> List[Item]:
     items = corpus_items("C06")
-    cfg = Cfg(raising=False)
+    cfg = Cfg(raising=False, catch_unsafe=True)
     items += gen_items(rng, cfg, sizes(tier, 300, 4000), hist_all_ops, ops=("evaluate",))
     return items
 
@@ -1051,8 +1075,10 @@ def c09_programs(rng, tier) -> List[Item]:
         for _ in range(4):
             o: Dict[str, Any] = {}
             for key, vals in (("A", [1, "a", "{B}", "x{C}", None]), ("B", [2, "b", "{C}"]), ("C", [3, "c"]),
-                              ("P", ["{A}", "{B}-{A}", "p"]), ("Q", ["q{P}", "{S.X}"]), ("L", [["{A}", 1], ["l"]]),
-                              ("S", [{"X": "{B}"}, {"X": 5}, {"Y": 1}]), ("W", [t, "{A}{B}", ["{C}"], {"K": "{A}"}])):
+                              ("P", ["{A}", "{B}-{A}", "p", "n{:p:}"]), ("Q", ["q{P}", "{S.X}"]),
+                              ("L", [["{A}", 1], ["l"], [{"path": "{B}/{C}"}], [["{A}"]]]),
+                              ("S", [{"X": "{B}"}, {"X": 5}, {"Y": 1}]),
+                              ("W", [t, "{A}{B}", ["{C}"], {"K": "{A}"}, [{"p": "{B}"}, ["{C}"]], {"K": [{"q": "{A}"}]}])):
                 if rng.random() < 0.75:
                     o[key] = rng.choice(vals)
             o = sort_json(o)
@@ -1179,7 +1205,7 @@ def in_domain_program(prog) -> bool:
 
 def c10_programs(rng, tier) -> List[Item]:
     items = corpus_items("C10")
-    cfg = Cfg(raising=False, domains=False, all_options=False, total_fns=True)
+    cfg = Cfg(raising=False, domains=False, all_options=False, total_fns=True, switches=True)
     items += gen_items(rng, cfg, sizes(tier, 300, 4000), hist_agree)
     cfg2 = Cfg(raising=True, domains=False, all_options=False)
     its = gen_items(rng, cfg2, sizes(tier, 120, 1500), hist_agree)
@@ -1417,6 +1443,8 @@ def hist_failures(rng, cfg, g: G, meta, n_dicts=5):
         recs.append((len(P.ops) - 2, len(P.ops) - 1))
     meta["fail"] = recs
     meta["root"] = root
+    meta["root_cid"] = (P.dss[P.ds_of(root) - 1]["cache"] if P.node(root)["k"] == "dataset" else
+                        (P.node(root)["cache"] if P.node(root)["k"] == "cached" else None))
     meta["raising"] = {n: s["raise"]["cls"] for n, s in P.fns.items() if "raise" in s}
 
 
@@ -1447,6 +1475,11 @@ def c12_oracle(prog, meta, impl, model):
                 o = prog["ops"][i]["o"]
                 if k and ref_get(k, o)[0] == "found" and not _under_wrapper(prog):
                     out.append(("a missing-option failure names a key that is present", i, {"key": k, "options": o}))
+        if is_err(a) and meta.get("root_cid") is not None:
+            st = [c for c in a.get("cache", []) if c[0] == meta["root_cid"] and c[1] == "set"]
+            if st:
+                out.append(("a failed evaluation stored a value in the cache of the object that failed", i,
+                            {"options": prog["ops"][i]["o"], "stored_under": st[0][2], "error": a["r"]}))
         # a failed evaluation stores nothing: every later evaluation equals its cache-off twin
         if not same_value_or_both_fail(impl[i], impl[j]):
             out.append(("after earlier evaluations (some failed) an evaluation differs from the same one with caching off", i,
